@@ -282,7 +282,8 @@ def fam_path(seed, big):
                 continue
             name = "d%d" % j
             if k.startswith("long-"):
-                name = "L" * 200 + str(j)
+                # longer than std's 384-byte on-stack buffer for C strings
+                name = os.path.join("L" * 200 + str(j), "M" * 230)
                 k = k[5:]
             d = os.path.join(base, name)
             os.makedirs(d)
@@ -347,6 +348,14 @@ def fam_path(seed, big):
     mk(["unreadable"], "cmd8")
     # executable override goes through the same lookup
     mk(["missing", "ok"], "cmd9", extra={"exe_is_cmd": True})
+    # the search uses the PARENT's PATH even when the child gets an environment with another PATH
+    decoy = os.path.join(root, "decoy")
+    os.makedirs(decoy)
+    for cmd in ("cmd10", "cmd11"):
+        os.link(VCHILD, os.path.join(decoy, cmd))
+    mk(["missing", "ok"], "cmd10", extra={"env": [[hx("PATH"), hx(decoy)], [hx("X"), hx("1")]]})
+    mk(["missing", "noexec"], "cmd11", extra={"env": [[hx("PATH"), hx(decoy)]]})
+    mk(["ok"], "cmd10", extra={"env": [[hx("PATH"), hx("/nonexistent-dir")]]})
     return out
 
 
